@@ -129,6 +129,26 @@ DESCR = {
  "C19-F": ("client cuts the parameter tail at the LAST ';'", "two or more ';' in the address"),
  "C20-E": ("Atoi replaced by fmt.Sscan", "LISTEN_FDS / LISTEN_PID with a numeric prefix ('1x', '<pid>abc')"),
  "C20-F": ("stale-socket removal moved in front of activationListener()", "activation in effect and the address argument names an existing path"),
+ "C01-H": ("error-reporting hook; the read loop's `err` is shadowed, a handler error no longer ends the connection loop", "a handler returning an error while the client has further calls queued"),
+ "C02-H": ("bufio replaced by a hand-rolled receive buffer whose scan offset is not reset when bytes remain", "a frame split over segments whose completing segment carries further frames"),
+ "C03-H": ("NewConnection stats the unix path first (friendlier error); abstract addresses have no file", "a client address unix:@name"),
+ "C04-H": ("last-dot split factored into a helper that tests r == -1 instead of r <= 0", "a method string whose only dot is its first character"),
+ "C05-H": ("parser recycled through a sync.Pool without clearing lastComment", "a second parse in one process after a text that left a pending comment"),
+ "C06-H": ("list entries read by a readField helper; the struct-then-bare-name guard is lost", "a list with typed fields first and bare names last"),
+ "C07-H": ("generator stops patching typeless errors in the tree; one use of e.Type left", "an error declared without a parameter list"),
+ "C08-H": ("error and method reply helpers generated by one function; no fields means nil parameters for errors too", "an error without parameters sent through its generated helper"),
+ "C09-H": ("@deprecated doc annotation indexes the first word of the last doc line", "a doc block whose last comment line is blank"),
+ "C10-H": ("connection errors logged; EOF assumed to come without data", "client abort exactly between the last byte of a call object and its NUL"),
+ "C11-H": ("ctxio wraps non-net errors with the failed operation; callers compare with ==", "server dies before a reply's NUL"),
+ "C12-H": ("DispatchError deduplicated; InterfaceNotFound decoded into a non-pointer", "a call to an unregistered interface seen through the client"),
+ "C13-H": ("client caches introspection replies per connection keyed by method only", "two GetInterfaceDescription calls with different names on one Connection"),
+ "C14-H": ("wg.Add/conncounter++ moved into the handler goroutine", "Shutdown between an accept and the start of its handler"),
+ "C15-H": ("net/http style retry of temporary Accept errors swallows the listener deadline expiry", "any idle timeout stop on a real listener"),
+ "C16-H": ("GetInfo served from a lazily built snapshot with double-checked locking", "two connections whose first GetInfo calls overlap on a fresh service"),
+ "C17-H": ("ctxio operations unified over context.AfterFunc; stop() not called on the ordinary path", "the context of a completed operation ends while a later operation is in flight"),
+ "C18-H": ("a read-ahead goroutine in handleConnection keeps reading after an upgrade call", "an upgrade call followed by payload, service side"),
+ "C19-H": ("unix address stored as absolute path before the '@' test", "service address unix:@name"),
+ "C20-H": ("a failing net.FileListener on the selected descriptor is fatal instead of a fallback", "activation variables in effect with a selected descriptor that is not a socket"),
 }
 
 conf = {}
@@ -172,7 +192,7 @@ for pid in sorted(props):
                 shutil.copy(os.path.join(out, extra), os.path.join(d, extra))
         if os.path.isdir(os.path.join(out, f"{pid}_{v}_demo")):
             shutil.copytree(os.path.join(out, f"{pid}_{v}_demo"), os.path.join(d, "demo")); demo = "demo/run.sh"
-        for nf in (f"{pid}_notes.md", f"{pid}_notes2.md"):
+        for nf in (f"{pid}_notes.md", f"{pid}_notes2.md", f"{pid}_notes3.md", f"{pid}_notes4.md"):
             if os.path.exists(os.path.join(out, nf)):
                 shutil.copy(os.path.join(out, nf), os.path.join(d, "notes.md"))
         what, needs = DESCR.get(key, ("see notes.md", "see notes.md"))
